@@ -151,7 +151,7 @@ class BasicServer:
                 self.log = []
 
             def get_allowed_auths(self, username):
-                return "password,publickey,none"
+                return "password,publickey,keyboard-interactive,none"
 
             def check_auth_password(self, username, password):
                 self.log.append(("password", username))
@@ -163,6 +163,15 @@ class BasicServer:
             def check_auth_publickey(self, username, key):
                 self.log.append(("publickey", username))
                 return AUTH_SUCCESSFUL
+
+            def check_auth_interactive(self, username, submethods):
+                from paramiko import InteractiveQuery
+
+                self.log.append(("interactive", username))
+                return InteractiveQuery("title", "instructions", ("Password: ", False))
+
+            def check_auth_interactive_response(self, responses):
+                return AUTH_SUCCESSFUL if list(responses) == ["pw"] else AUTH_FAILED
 
             def check_channel_request(self, kind, chanid):
                 self.log.append(("open", kind))
